@@ -1103,6 +1103,105 @@ fn pool_closed_handback(_kv: &BTreeMap<String, String>) -> Vec<String> {
     })
 }
 
+/// C04: an HTTP/2 connection that was shared with `followers` waiting requests stays available:
+///   request 0 (HTTP/2) dials (the listener does not accept yet), `followers` further HTTP/2 requests to the
+///   origin are issued while that attempt is in flight, the connection is accepted and everybody is served;
+///   a later HTTP/2 request must be carried on the same connection (one transport connect in total).
+fn pool_h2_followers(kv: &BTreeMap<String, String>) -> Vec<String> {
+    use hyperdriver::bridge::io::TokioIo;
+    use hyperdriver::bridge::rt::TokioExecutor;
+    use hyperdriver::client::conn::protocol::auto::HttpConnectionBuilder;
+    use hyperdriver::client::conn::transport::duplex::DuplexTransport;
+    use hyperdriver::server::conn::Accept;
+    use std::sync::atomic::{AtomicUsize, Ordering};
+    use std::sync::Arc;
+    use std::task::{Context, Poll};
+    #[derive(Clone)]
+    struct Counting(DuplexTransport, Arc<AtomicUsize>);
+    impl tower::Service<http::request::Parts> for Counting {
+        type Response = <DuplexTransport as tower::Service<http::request::Parts>>::Response;
+        type Error = <DuplexTransport as tower::Service<http::request::Parts>>::Error;
+        type Future = <DuplexTransport as tower::Service<http::request::Parts>>::Future;
+        fn poll_ready(&mut self, cx: &mut Context<'_>) -> Poll<Result<(), Self::Error>> {
+            self.0.poll_ready(cx)
+        }
+        fn call(&mut self, req: http::request::Parts) -> Self::Future {
+            self.1.fetch_add(1, Ordering::SeqCst);
+            self.0.call(req)
+        }
+    }
+    let followers: usize = kv.get("followers").and_then(|s| s.parse().ok()).unwrap_or(1);
+    let max_idle: usize = kv.get("max_idle").and_then(|s| s.parse().ok()).unwrap_or(8);
+    let rt = tokio::runtime::Builder::new_current_thread().enable_all().build().unwrap();
+    rt.block_on(async move {
+        let (tx, mut incoming) = hyperdriver::stream::duplex::pair();
+        let accept = Arc::new(tokio::sync::Notify::new());
+        {
+            let accept = accept.clone();
+            tokio::spawn(async move {
+                accept.notified().await;
+                loop {
+                    let s = match std::future::poll_fn(|cx| std::pin::Pin::new(&mut incoming).poll_accept(cx)).await {
+                        Ok(s) => s,
+                        Err(_) => break,
+                    };
+                    tokio::spawn(async move {
+                        let svc = hyper::service::service_fn(|_req: http::Request<hyper::body::Incoming>| async move {
+                            Ok::<_, std::convert::Infallible>(http::Response::new(hyperdriver::Body::empty()))
+                        });
+                        let _ = hyper::server::conn::http2::Builder::new(TokioExecutor::new()).serve_connection(TokioIo::new(s), svc).await;
+                    });
+                }
+            });
+        }
+        let dials = Arc::new(AtomicUsize::new(0));
+        let mut cfg = hyperdriver::client::PoolConfig::default();
+        cfg.idle_timeout = None;
+        cfg.max_idle_per_host = max_idle;
+        let client = hyperdriver::client::Client::builder()
+            .with_protocol(HttpConnectionBuilder::default())
+            .with_transport(Counting(DuplexTransport::new(4096, tx.clone()), dials.clone()))
+            .with_pool(cfg)
+            .without_timeout()
+            .build();
+        let go = || {
+            let mut c = client.clone();
+            tokio::spawn(async move {
+                let req = http::Request::get("http://origin.test/").version(http::Version::HTTP_2).body(hyperdriver::Body::empty()).unwrap();
+                match tokio::time::timeout(std::time::Duration::from_millis(1500), c.request(req)).await {
+                    Ok(Ok(r)) => format!("{}", r.status().as_u16()),
+                    Ok(Err(e)) => format!("err:{e}"),
+                    Err(_) => "timeout".to_string(),
+                }
+            })
+        };
+        let settle = || async {
+            for _ in 0..30 {
+                tokio::task::yield_now().await;
+            }
+            tokio::time::sleep(std::time::Duration::from_millis(40)).await;
+        };
+        let mut hs = vec![go()];
+        settle().await;
+        for _ in 0..followers {
+            hs.push(go());
+            settle().await;
+        }
+        accept.notify_waiters();
+        accept.notify_one();
+        let mut ok = 0;
+        for h in hs {
+            if h.await.unwrap() == "200" {
+                ok += 1;
+            }
+        }
+        settle().await;
+        let first = dials.load(Ordering::SeqCst);
+        let later = go().await.unwrap();
+        vec![format!("first_ok={ok}"), format!("dials_first={first}"), format!("later={later}"), format!("dials={}", dials.load(Ordering::SeqCst)), "result=ok".into()]
+    })
+}
+
 /// C06: the pool key derived from a request (public `UriKey: TryFrom<&request::Parts>` + Display).
 fn urikey(kv: &BTreeMap<String, String>) -> Vec<String> {
     let mut parts = http::uri::Parts::default();
@@ -1498,6 +1597,7 @@ pub fn dispatch(family: &str, kv: &BTreeMap<String, String>) -> Vec<String> {
         "urikey" => urikey(kv),
         "pool_closed_handback" => pool_closed_handback(kv),
         "pool_release" => pool_release(kv),
+        "pool_h2_followers" => pool_h2_followers(kv),
         "pool_idle_limit" => pool_idle_limit(kv),
         "pool_idle_closed" => pool_idle_closed(kv),
         "pool_idle_expiry" => pool_idle_expiry(kv),
